@@ -178,9 +178,10 @@ void
 channel_abort_write(struct channel* self)
 {
     lock_acquire(&self->lock);
-    if (self->is_accepting_writes) {
-        self->mapped = self->head;
-    }
+    // Drop the reservation whether or not writes are accepted right now: if
+    // they are refused at this moment but accepted again before the writer's
+    // unmap, that unmap would otherwise commit the aborted bytes.
+    self->mapped = self->head;
     lock_release(&self->lock);
 }
 
